@@ -16,7 +16,9 @@ EXPLANATION = (
     "write-only list with its reason. R05.2 field pairing: for each task attribute the keyword whose parser case stores the field equals the "
     "keyword the serialiser emits next to a read of that field. R05.3 nominal typing of the set containers at every call (shared with C19). "
     "R05.4 sentinel encodings of umask / max-simul round-trip over the whole field domain (shared with C12). R05.5: for every stream "
-    "class, each sub-stream the class frees and clones is also serialised.")
+    "class, each sub-stream the class frees and clones is also serialised. R05.2b: a first-one-wins guard in a parser case tests the very "
+    "field that case stores. R05.4b: the RRULE writer treats exactly the parser's default COUNT/INTERVAL as `do not write`. R05.6: the "
+    "buffered writer fdprintf() never hands a consumed va_list to a second formatting call (records that do not fit the 4096-byte buffer).")
 NOT_DECIDED = ("equality of the remaining occurrence sequence after a write/read cycle at every consumption prefix (run-time stream state); "
                "value formats of individual fields beyond the encodings checked; the behaviour itself")
 TRUSTED = ["clang 14 parser/CFG builder", "echse-facts extractor", "gperf (tables regenerated from the .erf files)", "python rule engines in /verif/sa"]
